@@ -1,11 +1,11 @@
 CONSTANTS
-  Operands <- PrecOperands
-  Binary <- AllBinary
-  Prefix = {"u-", "u+"}
+  Operands <- ExtPool
+  Binary <- LitBinary
+  Prefix = {"u-"}
   Postfix = {"%"}
-  Calls = {"SUM(", "IF("}
-  Parens = TRUE
-  MaxLen = 5
+  Calls <- ExtCalls
+  Parens = FALSE
+  MaxLen = 3
   MinExport = 1
   Lit <- MCLit
   LitDev <- MCLitDev
